@@ -252,6 +252,12 @@ def sig_matches(known_sig: dict[str, Any], sig: dict[str, Any]) -> bool:
             if field not in sig or str(v) not in str(sig[field]):
                 return False
             continue
+        if k.endswith("__subset"):
+            # the known finding names a set of changes; any violation that includes all of them is explained
+            field = k[: -len("__subset")]
+            if field not in sig or not isinstance(sig[field], (list, tuple)) or not set(map(str, v)) <= set(map(str, sig[field])):
+                return False
+            continue
         if k not in sig:
             return False
         if jdump(sig[k]) != jdump(v):
@@ -351,6 +357,11 @@ class Ctx:
         for h in self.known_hits:
             print(f"KNOWN-FINDING: property={self.pid} {h['id']}: {h['what']}")
         rc = 0
+        try:
+            WORK.mkdir(exist_ok=True)
+            (WORK / f"{self.pid}.violations.json").write_text(json.dumps(self.violations, indent=1, default=_json_default) + "\n")
+        except OSError:
+            pass
         if self.violations:
             d = REPLAYS / self.pid
             d.mkdir(parents=True, exist_ok=True)
